@@ -15,13 +15,13 @@ LEAF_OBSERVERS = {
 
 # producers whose emission loop runs over a finite, already materialised collection
 FINITE_FLUSH = {
-    '<ops::start_with::StartWithOp<S, Item> as Observable>::actual_subscribe': 'flushes the Vec given to start_with, then subscribes the source',
+    '<ops::start_with::StartWithOp as Observable>::actual_subscribe': 'flushes the Vec given to start_with, then subscribes the source',
 }
 
 # next() bodies that send a terminal on a *clone* of a handle type parameter; sound only because the
 # parameter is instantiated with MutRc|MutArc<Option<_>> handles only (obligation C01.P2')
 TERMINAL_ON_CLONED_HANDLE = {
-    '<ops::take_until::TakeUntilNotifierObserver<Item, Err, O> as Observer>::next':
+    '<ops::take_until::TakeUntilNotifierObserver as Observer>::next':
         'main_observer: O is the shared MutRc|MutArc<Option<_>> slot; its blanket impl take()s on complete',
 }
 
@@ -48,7 +48,7 @@ def is_leaf_observer(cx, im):
 
 
 def finite_flush_exempt(cx, fn):
-    return FINITE_FLUSH.get(cx.label(fn))
+    return FINITE_FLUSH.get(stable_label(cx, fn))
 
 
 def type_tag(F, ti):
@@ -71,3 +71,15 @@ def impl_tag(cx, im):
 
 def method_tag(cx, im, name):
     return '%s::%s' % (impl_tag(cx, im), name)
+
+
+def stable_label(cx, fn):
+    """generic-free label of a function: '<impl tag as Trait>::name' (robust to renamed type parameters)"""
+    F = cx.facts
+    root = F.fns.get(fn.get('root')) if fn.get('root') else fn
+    im = F.impl_of_fn(root) if root else None
+    name = (root or fn).get('name') or (root or fn)['key'].split('::')[-1]
+    if im is None:
+        return (root or fn)['path']
+    tr = (im.get('trait') or '').split('::')[-1]
+    return '<%s%s>::%s' % (impl_tag(cx, im), (' as ' + tr) if tr else '', name)
